@@ -652,6 +652,9 @@ func runCase(run *vf.Run, raw json.RawMessage, dir string) *vf.Result {
 			}
 			return c.removals(3)
 		}
+		if !c.listingFaults() {
+			return false
+		}
 		return c.removals(0)
 	}
 	run1()
